@@ -977,7 +977,7 @@ impl Property for C44 {
         case_strategy(tier.pick(40, 150))
     }
     fn budget(&self, tier: Tier) -> Budget {
-        Budget::new(tier.pick(2_400, 60_000), tier.pick(8, 16)).min_nontrivial(tier.pick(300, 8000)).case_timeout(90)
+        Budget::new(tier.pick(1_500, 60_000), tier.pick(8, 16)).min_nontrivial(tier.pick(200, 8000)).case_timeout(90)
     }
     fn rule(&self) -> String {
         "table schema = struct column + 1-5 typed scalar columns; 1-3 Parquet files whose physical schemas permute / drop / add columns and struct fields and use lower types of a value-preserving lattice; \
@@ -991,6 +991,17 @@ impl Property for C44 {
             "only value-preserving (widening / re-encoding) type differences are generated; table fields are nullable".into(),
             "the parquet ArrowWriter stores the generated batches faithfully".into(),
         ]
+    }
+    fn known_signature(&self, case: &Case) -> Option<String> {
+        // open finding "dictionary-column-statistics-interval" (see known_findings.json)
+        let has_pred = match &case.query {
+            Query::Select { pred, .. } | Query::Agg { pred, .. } => pred.is_some(),
+        };
+        let dict_col = case.table.iter().any(|c| c.kind == 3 && pick(&table_types(VK::Str), c.ty) == STy::DictUtf8);
+        if dict_col && case.opts.collect_stats && has_pred {
+            return Some("dictionary-table-column+collect-statistics+filter".into());
+        }
+        None
     }
     fn run(&self, case: &Case) -> CaseResult {
         let Some(table) = RTable::resolve(case) else { return CaseResult::discard("outside domain: table schema") };
